@@ -771,6 +771,17 @@ func init() {
 					acases = append(acases, c10ACase{Kind: kind, Name: n, Feats: k, Meta: k, Op: op})
 				}
 			}
+			if full {
+				// every name x every feature set
+				for _, n := range names {
+					for fi := range sets {
+						for _, op := range []string{"get", "multiget", "query", "put"} {
+							k++
+							acases = append(acases, c10ACase{Kind: kind, Name: n, Feats: fi, Meta: k, Op: op})
+						}
+					}
+				}
+			}
 			for m := 0; m < len(c10ETags)*len(c10Times); m++ {
 				for _, op := range []string{"get", "multiget", "put"} {
 					acases = append(acases, c10ACase{Kind: kind, Name: "o", Feats: m, Meta: m, Op: op})
